@@ -32,7 +32,7 @@ STUB_COMPONENTS = ["leaf processors", "RecordingExecutor", "SimClock/SimUUID", "
 ASSUMPTIONS = ["a rewrite is cosmetic iff yaml.safe_load of both texts is type-strictly equal (dict order ignored; sweep "
                "expressions compared up to +/* operand order)", "equality across worlds only; hashes are not re-implemented"]
 REQUIRED_PROBES = ["reused_pipeline_second_traced_run_with_sweep", "history_contains_failing_run", "fresh_interpreter_other_hashseed",
-                   "world_pair_differs_in_cwd", "rewrite_flow_style", "rewrite_float_spelling", "rewrite_expression_commuted", "with_run_space"]
+                   "world_pair_differs_in_cwd", "rewrite_flow_style", "rewrite_float_spelling", "rewrite_expression_commuted", "with_run_space", "history_contains_type_variant_twin"]
 CONFIG = {
     "quick": {"runs": 640, "budget_s": 240, "timeout_s": 240},
     "thorough": {"runs": 20000, "budget_s": 1700, "timeout_s": 240},
@@ -56,7 +56,7 @@ def generate(rng: random.Random, tier: str, seed: int) -> dict:
         hist = []
         for _ in range(rng.randint(0, 6)):
             hist.append(rng.choice(["build_B", "run_B", "run_B_traced", "inspect_B", "run_A_traced", "run_A_traced_reuse",
-                                    "run_A_failing", "build_A", "inspect_A", "run_A"]))
+                                    "run_A_failing", "build_A", "inspect_A", "run_A", "inspect_twin", "run_twin_traced"]))
         sc["worlds"].append({"seed": rng.getrandbits(32), "tz": rng.choice(harness.TZS), "cwd": rng.choice(["", "d1", "d1/d2", "x y"]),
                              "history": hist, "rewrite": rng.getrandbits(32)})
     return sc
@@ -236,9 +236,26 @@ def id_record(full_cfg: dict, text: str, ctx: dict, init_data, w, stats: dict) -
     return rec
 
 
+def _twin(a: dict) -> dict | None:
+    """A different configuration that is element-wise EQUAL to A but differs in scalar type (1.0 vs 1): sweep value
+    lists with integral floats are rewritten as ints. Used only as prior history."""
+    t = copy.deepcopy(a)
+    changed = False
+    for n in t["nodes"]:
+        sw = (n.get("derive") or {}).get("parameter_sweep")
+        if not sw:
+            continue
+        for v in sw.get("variables", {}).values():
+            if isinstance(v, dict) and isinstance(v.get("values"), list) and all(isinstance(x, float) and x.is_integer() for x in v["values"]):
+                v["values"] = [int(x) for x in v["values"]]
+                changed = True
+    return t if changed else None
+
+
 def _history(ops: list[str], sc: dict, w, stats: dict) -> None:
     A = dict(sc["A"], faults=[])
     B = dict(sc["B"], faults=[])
+    T = _twin(sc["A"])
     reuse = None
     for i, op in enumerate(ops):
         name = f"h{len(w.exec_log)}_{i}"
@@ -266,6 +283,15 @@ def _history(ops: list[str], sc: dict, w, stats: dict) -> None:
             harness.run_scenario(f, w, trace_mode="file", detail="hash", name=name)
             stats["probe.history_contains_failing_run"] = stats.get("probe.history_contains_failing_run", 0) + 1
             stats["fault.exception"] = stats.get("fault.exception", 0) + 1
+        elif op in ("inspect_twin", "run_twin_traced"):
+            if T is None:
+                continue
+            stats["probe.history_contains_type_variant_twin"] = stats.get("probe.history_contains_type_variant_twin", 0) + 1
+            if op == "inspect_twin":
+                from semantiva.inspection import build_inspection_payload
+                build_inspection_payload({"pipeline": {"nodes": copy.deepcopy(T["nodes"])}})
+            else:
+                harness.run_scenario(dict(T, faults=[]), w, trace_mode="file", detail="hash", name=name)
         elif op in ("inspect_A", "inspect_B"):
             from semantiva.inspection import build_inspection_payload
             build_inspection_payload({"pipeline": {"nodes": copy.deepcopy((A if op.endswith("A") else B)["nodes"])}})
